@@ -83,6 +83,8 @@ var menus = map[string][]string{
 	"acct":  {"bal(A0)", "bal(A1)", "touch(A1)", "nonce(A0)", "store(A0)", "code(A1)", "suicide(A0)", "create(A1)", "log", "refund", "preimage"},
 	"val":   {"vcreate(V1)", "vdeposit(V0)", "vstatus(V0)", "vreward(V0)", "dlg+(V0)", "dlg-(V0)", "dlg+(V2)", "dlg-(V2)", "wadd", "wrem", "wremL"},
 	"mixed": {"bal(A1)", "store(A0)", "suicide(A0)", "log", "vcreate(V1)", "vdeposit(V0)", "dlg+(V0)", "dlg-(V0)", "wadd"},
+	// one storage slot across transactions: current value vs. value finalised by an earlier tx vs. value on disk
+	"slot": {"store(A0)", "store7(A0)", "store0(A0)"},
 	// only what an EVM transaction can do: the shape every tx >= 2 of a block has
 	"evm": {"bal(A1)", "store(A0)", "log", "suicide(A0)"},
 }
@@ -266,9 +268,9 @@ func (s *Sys) Key() string           { return "" }
 func Run(r *mc.Run) {
 	r.Level = "model_checking"
 	r.Rule = "every op sequence up to the stated depth over each sub-alphabet (mutations + snap + revert(k) for every live snapshot + finalise) is executed on a fresh real StateDB reopened from a committed non-initial base state; a case is non-trivial when a revert undid a non-empty difference; distinct = distinct (pre-revert observation => snapshot observation) pairs"
-	depth := map[string]int{"acct": 5, "val": 5, "mixed": 5, "evm": 7}
+	depth := map[string]int{"acct": 5, "val": 5, "mixed": 5, "evm": 7, "slot": 7}
 	if !r.Quick() {
-		depth = map[string]int{"acct": 6, "val": 7, "mixed": 6, "evm": 9}
+		depth = map[string]int{"acct": 6, "val": 7, "mixed": 6, "evm": 9, "slot": 9}
 		r.SetBudget(40 * 60e9)
 	} else {
 		r.SetBudget(150e9)
@@ -276,7 +278,7 @@ func Run(r *mc.Run) {
 	r.SetExtra("depth_per_alphabet", depth)
 	r.Assume("validator records are only mutated through the call patterns production uses (PartialCopy+UpdateValidator, UpdateDelegation, Add/RemoveWithdrawRecords); RemoveValidator has no production caller and is not in the alphabet")
 	r.Assume("staking records / pending relationships are not journalled by design and are not part of this alphabet")
-	for _, a := range []string{"evm", "val", "acct", "mixed"} {
+	for _, a := range []string{"slot", "evm", "val", "acct", "mixed"} {
 		a := a
 		f := func() mc.System { return newSys(r, a) }
 		r.DFSAll(f, mc.SeqOpts{Name: "statedb-" + a, Depth: depth[a], ShardDepth: 2, NoDistinct: true})
